@@ -15,6 +15,8 @@ the returned wavefront, or the exception class and the state the operand is left
 is finite and enumerated completely, so the emitted Gallina functions ARE the implementation's
 transition function on that domain, not a sample of it.
 
+Every construction rotates through the object routes (as built, copy(), copy.copy, deepcopy, pickle round
+trip) for the plane, the wavefront and the product, and through the documented keyword alias amp=.
 Every multiplication cell is observed a second time with a plane object (and a copy() of it) that
 was used before in a different permitted cell: the outcome must not depend on the plane's history.
 
@@ -25,8 +27,10 @@ between a fresh and a used plane object (behaviour is not a function of the type
 
 This module also owns the builders of real objects shared with harness/props/c08.py.
 """
+import copy
 import inspect
 import os
+import pickle
 import sys
 import warnings
 
@@ -103,6 +107,31 @@ def _flt(ps):
 
 class GeneratorError(Exception):
     pass
+
+
+# routes by which an object can reach a step: as constructed, through its own copy(), the copy module,
+# or a pickle round trip (multiprocessing, a model cached on disk).  The plane-type rules are about the
+# objects' types, so every route must behave alike; the product of a step is read through a route too.
+ROUTES_P = ['fresh', 'copy()', 'copy.copy', 'deepcopy', 'pickle']
+ROUTES_W = ['fresh', 'copy.copy', 'deepcopy', 'pickle']
+
+
+def route(obj, r):
+    if r in (None, 'fresh', False):
+        return obj
+    if r in ('copy()', True):
+        out = obj.copy()
+    elif r == 'copy.copy':
+        out = copy.copy(obj)
+    elif r == 'deepcopy':
+        out = copy.deepcopy(obj)
+    elif r == 'pickle':
+        out = pickle.loads(pickle.dumps(obj))
+    else:
+        raise GeneratorError(f'unknown object route {r!r}')
+    if type(out) is not type(obj):
+        raise GeneratorError(f'{r} of a {type(obj).__name__} returned a {type(out).__name__}')
+    return out
 
 
 class OverrideRefused(GeneratorError):
@@ -245,6 +274,8 @@ def build_plane(lentil, kind, name, v, clip=False, po=None, reg=REG0, mism=False
 
     def samp(i=None):
         kw = var[(v if i is None else i) % len(var)](ps)
+        if (v // 2) % 2 and 'amplitude' in kw:
+            kw['amp'] = kw.pop('amplitude')      # the documented keyword alias, every other pair of variants
         if mism:
             kw['pixelscale'] = ps
         return kw
@@ -419,6 +450,7 @@ def observe_all():
         seen = {}
         nv = n_variants(kind, name, clip)
         si = states.index(st)
+        j = si                                 # observation counter: rotates the object routes
         few = mism or po is not None          # the default cells already go through every construction
         for v in (range(nv) if not few else range(min(nv, 4))):
             regs = [STRICT[(v + si) % len(STRICT)]]
@@ -432,19 +464,25 @@ def observe_all():
                 regs.append(lo[(v + si) % len(lo)])
             for reg in regs:
                 for wv in ((0, 1) if st[1] == 'empty' else (v % 2,)):
-                    w = build_wavefront(lentil, st[0], st[1], wv, reg)
+                    j += 1
+                    pr, wr = ROUTES_P[j % len(ROUTES_P)], ROUTES_W[(j + j // 5) % len(ROUTES_W)]
+                    outr = ROUTES_W[(j + 1 + j // 4) % len(ROUTES_W)]
+                    w = route(build_wavefront(lentil, st[0], st[1], wv, reg), wr)
+                    if state_of(w) != st:
+                        raise GeneratorError(f'a {st} wavefront reads {state_of(w)} after {wr}')
                     if kind == 'prop':
-                        o = observe(lentil, lambda ww: do_propagate(lentil, name, ww, v, reg), w)
+                        o = observe(lentil, lambda ww: route(do_propagate(lentil, name, ww, v, reg), outr), w)
                     else:
-                        pl = build_plane(lentil, kind, name, v, clip, po, reg, mism)
+                        pl = route(build_plane(lentil, kind, name, v, clip, po, reg, mism), pr)
                         if (v + si) % 3:
-                            o = observe(lentil, lambda ww: ww * pl, w)
+                            o = observe(lentil, lambda ww: route(ww * pl, outr), w)
                         else:
-                            o = observe(lentil, pl.multiply, w)      # the documented other spelling
-                    seen.setdefault(o, (v, wv, reg))
+                            o = observe(lentil, lambda ww: route(pl.multiply(ww), outr), w)   # the other spelling
+                    seen.setdefault(o, (v, wv, reg, pr, wr, outr))
         if len(seen) != 1:
             raise GeneratorError(f'{kind} {name} (clip={clip}, ptype={po}, mism={mism}) on {st}: outcome depends on the '
-                                 f'construction (variant, wavefront variant, (pixel scale, wavelength, loose)), not '
+                                 f'construction (variant, wavefront variant, (pixel scale, wavelength, loose), plane / wavefront / '
+                                 f'product route), not '
                                  f'only on the types: {seen}')
         return next(iter(seen))
 
